@@ -113,11 +113,21 @@ def scenario(exe, shim, root, seed, stats):
             p = a.path(d, rel)
             oldsize = os.path.getsize(p)
             st = os.lstat(p)
-            how = rng.choice(['append', 'touch', 'edit', 'edit-samesec'])
+            how = rng.choice(['append', 'touch', 'edit', 'edit-samesec', 'shrink', 'shrink'])
+            edit_from = None
             edit_idx = None
             if how == 'append':
                 # the recorded extent of the file keeps its bytes (scrub reads the recorded size only)
                 with open(p, 'ab') as f: f.write(b'changed-after-sync')
+            elif how == 'shrink' and oldsize > 1:
+                # the file got shorter (not to a block boundary): its blocks from the cut on cannot be read any more
+                newsize = 1 + rng.below(oldsize - 1)
+                if newsize % a.block == 0: newsize -= 1
+                if newsize <= 0: newsize = 1
+                with open(p, 'r+b') as f: f.truncate(newsize)
+                os.utime(p, ns=(st.st_atime_ns, st.st_mtime_ns + 5_000_000_003))
+                edit_from = newsize // a.block
+                stats['shrunk_files'] = stats.get('shrunk_files', 0) + 1
             elif how == 'touch' or oldsize == 0:
                 os.utime(p, ns=(st.st_atime_ns, st.st_mtime_ns + 3_000_000_001))
             else:
@@ -136,6 +146,7 @@ def scenario(exe, shim, root, seed, stats):
                 if b['disk'] == d and os.fsdecode(b['sub']) == rel:
                     unsynced.add(b['pos'])
                     if edit_idx is not None and b['idx'] == edit_idx: changed_pos.add(b['pos'])
+                    if edit_from is not None and b['idx'] >= edit_from: changed_pos.add(b['pos'])
             # wrong parity in a stripe of the unsynced file (sometimes)
             mine = sorted(b['pos'] for b in lay.blocks if b['disk'] == d and os.fsdecode(b['sub']) == rel)
             if mine and rng.chance(1, 2):
